@@ -697,6 +697,7 @@ func verifC15Case(line string) (out string) {
 		w := verifC15AddWorker(wp, 1, 1, StateIdle, IdleBehaviorRun, nil, nil, nil)
 		w.wkr.probed = time.Now()
 		pending := map[int]int{}
+		runners := map[int][]*remoteRunner{} // runner objects of the outstanding starts, oldest first
 		defer func() {
 			// let every outstanding start command return
 			ex.mtx.Lock()
@@ -721,6 +722,9 @@ func verifC15Case(line string) (out string) {
 				}
 				if wp.StartContainer(verifC15Type(1), arvados.Container{UUID: verifC15UUID(u), Priority: 1}) {
 					pending[u]++
+					wp.mtx.Lock()
+					runners[u] = append(runners[u], w.wkr.starting[verifC15UUID(u)])
+					wp.mtx.Unlock()
 				}
 			case "sd":
 				u, err := strconv.Atoi(op[2:])
@@ -732,14 +736,22 @@ func verifC15Case(line string) (out string) {
 				}
 				pending[u]--
 				gate := ex.takeGate(u)
+				rr := runners[u][0]
+				runners[u] = runners[u][1:]
 				wp.mtx.Lock()
 				upd := w.wkr.updated
+				inStarting := w.wkr.starting[verifC15UUID(u)] == rr
 				wp.mtx.Unlock()
 				time.Sleep(time.Microsecond) // the closure's time stamp must differ from the previous one
 				close(gate)
-				// the completion closure stamps wkr.updated (a closure that finds nothing to do -- as
-				// it would with the fix proposed for F15a -- does not: then go on after two seconds)
-				deadline := time.Now().Add(2 * time.Second)
+				// A closure that moves its runner stamps wkr.updated: wait for that. A closure that finds
+				// its runner no longer in wkr.starting does nothing (since /repo 18910db) and cannot be
+				// observed: give it a moment (the unguarded closure would stamp well within it).
+				wait := 10 * time.Second
+				if !inStarting {
+					wait = 300 * time.Millisecond
+				}
+				deadline := time.Now().Add(wait)
 				for time.Now().Before(deadline) {
 					wp.mtx.Lock()
 					done := w.wkr.updated != upd
